@@ -442,7 +442,9 @@ func Replay(v any) map[string]any {
 		return map[string]any{"error": err.Error()}
 	}
 	var m map[string]any
-	if err := json.Unmarshal(js, &m); err != nil {
+	dec := json.NewDecoder(strings.NewReader(string(js)))
+	dec.UseNumber() // int64 values stay exact
+	if err := dec.Decode(&m); err != nil {
 		return map[string]any{"raw": string(js)}
 	}
 	return m
